@@ -65,7 +65,8 @@ def specs():
     add('psi', mp.digamma, pos)
     for m in (0, 1, 2, 3):
         add('polygamma', (lambda x, m=m: mp.polygamma(m, x)), pos, extras=(m,), label='polygamma(m=%d)' % m)
-    for a, b in [(1.5, 0.5), (0.5, 1.5), (1.0, 2.0), (-0.5, 1.5), (-2.5, 0.5), (2.0, 3.0)]:
+    # a = -k (U is a polynomial of degree k: the k-th derivative is the constant (-1)^k k!, higher ones vanish) and a = 0
+    for a, b in [(1.5, 0.5), (0.5, 1.5), (1.0, 2.0), (-0.5, 1.5), (-2.5, 0.5), (2.0, 3.0), (-1.0, 0.5), (-2.0, 1.5), (-3.0, 2.0), (-4.0, 0.5), (0.0, 1.5)]:
         add('hyperu', (lambda x, a=a, b=b: mp.hyperu(a, b, x)), pos, extras=(a, b), label='hyperu(a=%s,b=%s)' % (a, b))
     # piecewise constant / linear: exact derivatives
     step = lambda f: (lambda x, n: (f(x) if n == 0 else 0.0))
